@@ -79,7 +79,8 @@ def run(ctx):
                 progs[p] = {"taxa": {t: [[1, 1]] for t in rng.sample(pool, rng.randint(0, 5))}}
             a = LearningCostAssessor(progs, strat)
             K0 = gen_knowledge(rng, pool, closed=True)
-            a.set_imparted_knowledge(set(K0))
+            shared = set(K0)  # one set object, mutated in place and passed again (what Recommendations does)
+            a.set_imparted_knowledge(shared)
             other = LearningCostAssessor(progs, strat) if rng.random() < 0.4 else None
             if other is not None:
                 # NB: constructing `other` clears the class-level cache: harmless, but exercise it
@@ -89,8 +90,19 @@ def run(ctx):
                 r = rng.random()
                 if r < 0.3:
                     K = gen_knowledge(rng, pool, closed=rng.random() < 0.8)
-                    a.set_imparted_knowledge(set(K))
-                    ops.append({"kind": "set", "knowledge": sorted(K)})
+                    if rng.random() < 0.5:
+                        # the caller's own set, changed in place, is handed over again
+                        if rng.random() < 0.5:
+                            shared.update(K)
+                        else:
+                            shared.clear()
+                            shared.update(K)
+                        a.set_imparted_knowledge(shared)
+                        ops.append({"kind": "set", "knowledge": sorted(shared), "in_place": True})
+                    else:
+                        shared = set(K)
+                        a.set_imparted_knowledge(shared)
+                        ops.append({"kind": "set", "knowledge": sorted(K)})
                     real.append(None)
                 elif r < 0.65:
                     t = rng.choice(pool)
@@ -122,41 +134,41 @@ def run(ctx):
                 ctx.broken.append("corr:assessor-history")
             if len(ctx.cov["samples"]) < 2 and n_sets >= 1:
                 ctx.sample({"strategy": strat, "ops": ops[:5], "impl": real[:5], "model": out["model"][:5]})
-        # (c) recommender: run_pipeline 1-3 times on one Recommendations object: costs reflect the knowledge then
+        # (c) recommender: run_pipeline 1-3 times on ONE Recommendations object: the assessed costs must be those of the
+        # current selection under the current knowledge. The expectation comes from the Lean model run on the
+        # concatenated commands (the filter state carries over between calls). NB: never build a second
+        # LearningCostAssessor here: its constructor clears the class-level memo and would hide a stale cache.
         from paroxython.recommend_programs import Recommendations
         import copy
 
-        k = 150 if ctx.tier == "quick" else 3000
+        k = 300 if ctx.tier == "quick" else 5000
         for i in range(k):
             db = filt.gen_db(rng)
             strat = rng.choice(["zeno", "linear"])
             d = copy.deepcopy(db)
+            runs = [[filt.gen_command(rng, db, ops=["impart", "include", "exclude", "impart", "impart"], odd=False, bad_ok=False, triple_p=0.15)
+                     for _ in range(rng.randint(0, 3))] for _ in range(rng.randint(1, 3))]
+            got = None
             with contextlib.redirect_stdout(io.StringIO()), contextlib.redirect_stderr(io.StringIO()):
-                rec = Recommendations(d, assessment_strategy=strat)
-                runs = []
-                ok = True
-                for _ in range(rng.randint(1, 3)):
-                    cmds = [filt.gen_command(rng, db, ops=["impart", "include", "exclude", "impart"], odd=False, bad_ok=False)
-                            for _ in range(rng.randint(0, 3))]
-                    try:
+                try:
+                    rec = Recommendations(d, assessment_strategy=strat)
+                    for cmds in runs:
                         rec.run_pipeline(filt.to_py_cmds(cmds))
-                    except Exception:  # noqa
-                        ok = False
-                        break
-                    runs.append(cmds)
-                    # expected: the pure assessment of the current selection under the current knowledge
-                    fresh = LearningCostAssessor(rec.db_programs, strat)
-                    fresh.set_imparted_knowledge(set(rec.imparted_knowledge))
-                    expected = fresh(set(rec.selected_programs))
-                    got = rec.assessed_programs
-                    ctx.count("recommender runs", repr((sorted(db["programs"]), runs)), nontrivial=len(runs) >= 2)
-                    if [(frac(c), p) for c, p in got] != [(frac(c), p) for c, p in expected]:
-                        ctx.violations.append({
-                            "what": "assessed costs after run_pipeline do not reflect the current imparted knowledge",
-                            "replay": {"kind": "recommender-history", "db": db, "strategy": strat, "runs": runs,
-                                       "impl": [[frac(c), p] for c, p in got], "fresh_assessor": [[frac(c), p] for c, p in expected]},
-                        })
-                        break
+                    got = [[frac(c), p] for c, p in rec.assessed_programs]
+                except Exception as exc:  # noqa
+                    got = {"exc": type(exc).__name__}
+            flat = [c for cmds in runs for c in cmds]
+            model = drv.call(**filt.model_request(db, flat, strat))
+            expected = model.get("ranking") if "exc" not in model else {"exc": model["exc"]}
+            ctx.count("recommender runs", repr((sorted(db["programs"]), runs, strat)), nontrivial=len(runs) >= 2 and bool(flat))
+            ctx.dist("recommender:runs=%d" % len(runs))
+            if got != expected:
+                n_dis += 1
+                ctx.violations.append({
+                    "what": "assessed costs after several run_pipeline calls do not reflect the current imparted knowledge",
+                    "replay": {"kind": "recommender-history", "db": db, "strategy": strat, "runs": runs,
+                               "impl": got, "model(=spec)": expected},
+                })
         # (d) whole pipelines: ranking vs model (sorted by (cost, path), exact fractions)
         q = 250 if ctx.tier == "quick" else 5000
         for i in range(q):
@@ -208,13 +220,27 @@ def replay(ctx, path):
         print("impl:", frac(a.taxon_cost(obj["taxon"])), "expected:", obj.get("model(=spec, by C07_taxon)"))
     elif obj.get("kind") == "assessor-history":
         a = LearningCostAssessor(obj["programs"], obj["strategy"])
-        a.set_imparted_knowledge(set(obj["knowledge0"]))
+        shared = set(obj["knowledge0"])
+        a.set_imparted_knowledge(shared)
         for op in obj["ops"]:
             if op["kind"] == "set":
-                a.set_imparted_knowledge(set(op["knowledge"])); print("set", op["knowledge"])
+                if op.get("in_place"):
+                    shared.clear(); shared.update(op["knowledge"]); a.set_imparted_knowledge(shared)
+                else:
+                    shared = set(op["knowledge"]); a.set_imparted_knowledge(shared)
+                print("set", op["knowledge"], "(in place)" if op.get("in_place") else "")
             elif op["kind"] == "taxon":
                 print("taxon_cost", op["taxon"], frac(a.taxon_cost(op["taxon"])))
             else:
                 print("assess", op["selected"], [[frac(c), p] for c, p in a(set(op["selected"]))])
         print("expected:", obj.get("spec_outputs(pure recomputation)"))
+    elif obj.get("kind") == "recommender-history":
+        import contextlib, io, copy
+        from paroxython.recommend_programs import Recommendations
+        with contextlib.redirect_stdout(io.StringIO()), contextlib.redirect_stderr(io.StringIO()):
+            rec = Recommendations(copy.deepcopy(obj["db"]), assessment_strategy=obj["strategy"])
+            for cmds in obj["runs"]:
+                rec.run_pipeline(filt.to_py_cmds(cmds))
+        print("impl    :", [[frac(c), p] for c, p in rec.assessed_programs])
+        print("expected:", obj.get("model(=spec)"))
     return 0
